@@ -45,13 +45,15 @@ def main():
     ap.add_argument("--seed", type=int, default=0)
     ap.add_argument("--tier", default="quick")
     ap.add_argument("--all", action="store_true")
+    ap.add_argument("--branches", action="store_true",
+                    help="also list branches taken in one direction only")
     a = ap.parse_args()
     import warnings
     warnings.simplefilter("ignore")
     import coverage
     repo = os.environ.get("VERIF_REPO", "/repo")
     cov = coverage.Coverage(data_file=None, include=[repo + "/rig/*"],
-                            branch=False)
+                            branch=a.branches)
     sys.path.insert(0, repo)
     from rigsim import runner, engines_registry
     from rigsim.core import Tape, derive_seed
@@ -81,6 +83,18 @@ def main():
                                  for x in anchors):
             continue
         _fn, stmts, _excl, missing, _fmt = cov.analysis2(f)
+        if a.branches:
+            an = cov._analyze(f)
+            arcs = an.missing_branch_arcs()
+            part = sorted((src_, dst) for src_, dsts in arcs.items()
+                          for dst in dsts if src_ not in missing)
+            if part:
+                src_lines = open(f).read().splitlines()
+                print("\n%s  branches never taken:" % rel)
+                for a_, b_ in part:
+                    print("   %5d -> %-5s %s" % (
+                        a_, b_ if b_ > 0 else "exit",
+                        src_lines[a_ - 1].strip()[:90]))
         if not missing:
             continue
         spans = func_spans(f)
